@@ -209,11 +209,21 @@ func runC05(e *core.Env) {
 		g.K.LocChanges = e.Choose("gen", 3, "locchg") == 2
 		g.K.PartialEvery = []int{0, 0, 1, 2, 3}[e.Choose("gen", 5, "partial")]
 		g.K.RefuseMonoPut = e.Choose("gen", 4, "refusemono") == 3
+		if e.Choose("gen", 5, "putcut") == 4 {
+			// the single PUT is cut by an intermediary after the registry stored part of it
+			g.K.PutKeepsThenFails = []int{1, chunk - 1, chunk, chunk + 1, 2 * chunk, 2*chunk + 5, 3*chunk + 1}[e.Choose("gen", 7, "putkeep")]
+			if g.K.PutKeepsThenFails < 1 {
+				g.K.PutKeepsThenFails = 1
+			}
+			if !seekable {
+				refusedNonSeekable = true // the stream cannot be sent again
+			}
+		}
 		sample["server"] = fmt.Sprintf("%+v", g.K)
 		// a stream that cannot be rewound cannot be sent twice by any client: when the single
 		// request is refused (which the spec does not allow a registry to do) the documented
 		// behaviour is an error, and the statement's second sentence does not apply
-		refusedNonSeekable = g.K.RefuseMonoPut && !seekable
+		refusedNonSeekable = refusedNonSeekable || (g.K.RefuseMonoPut && !seekable)
 		if faulty {
 			w.Net.Rate = 120
 			w.Net.MaxFaults = 3
@@ -263,6 +273,9 @@ func runC05(e *core.Env) {
 		}
 		if g.K.ChunkMin > chunk && patches > 0 {
 			e.Probe("min-chunk-raised")
+		}
+		if g.K.PutKeepsThenFails > 0 && patches > 0 {
+			e.Probe("resumed-after-cut-put")
 		}
 	}
 	simrt.Event("BlobPut returned %v digest=%s size=%d", err, short(dOut.Digest.String()), dOut.Size)
